@@ -36,7 +36,9 @@ RULE = ('pseudo-observation arrays X (n,2): samples of Clayton/Frank/Gumbel draw
         'dependence (identical / monotone / sorted / rank columns and their reversals, n in {2,3,10,200}, tau = +-1 exactly, '
         'and 1 - tiny with a tie or one inversion): the full statement incl. theta finite and admissible; a work BUFFER refilled in '
         'place between calls against fresh copies; TINY positive tau = 2/C(n,2) (tie-free, prescribed C-D) against the exact '
-        'rational calibration at 1e-10; tau/theta scalar FORM with to_dict/json/from_dict/save/load round trips; an '
+        'rational calibration at 1e-10; tau/theta scalar FORM with to_dict/json/from_dict/save/load round trips; sample SIZES '
+        'n = 1024, 2048, 4096, 3000, 4097 (whole-model tie, promoted to failing inputs) and 4095/4096/4097 prefixes of strongly '
+        'dependent Clayton / Gumbel data (definition of the tail curves, family recovery); an '
         'ALIASING batch (8 calls on harness-sampled arrays covering all three families, all results kept and re-checked: '
         'unchanged, pairwise distinct objects, equal to a second call on the same X); and LARGE-n cases (n = 10000, '
         '12000, 20001 from harness-side samplers): _compute_empirical against the definition over all rows (1e-12) and '
@@ -292,9 +294,11 @@ class Tie:
     def __init__(self, ctx, lean, grid):
         self.ctx, self.lean, self.grid = ctx, lean, grid
         self.bad = {}
+        self.log = []
         self.gridhex = hexes(grid)
 
     def fail(self, name, kind, X, detail):
+        self.log.append((name, str(detail)[:400]))
         if name not in self.bad:
             self.bad[name] = {'kind': kind, 'n': len(X), 'X': X[:6].tolist(), 'diff': detail}
 
@@ -572,6 +576,7 @@ def run(ctx, lean):
     for kind, X in datasets(ctx, grid, 'tie', 6 if s == 1 else 24, 150 * s, 12 * s, sizes):
         ctx.count('kind:' + kind.split('-')[0])
         t.one(kind, X)
+    size_tie(ctx, t)
     for n in names[1:]:
         ctx.ob(n, n not in t.bad, 'tie', t.bad.get(n, 'ok'))
     large_n_tie(ctx, lean, grid)
@@ -1567,6 +1572,62 @@ def scalar_form_oracle(ctx):
     return sum(scalar_form_case(ctx, spec) for spec in FORM_DATA)
 
 
+# ----------------------------------------------------------------------------------- sample sizes (block boundaries)
+SIZE_TIE = tuple((fam, 0.5, n, 8100 + 10 * i + j) for j, fam in enumerate(('clayton', 'gumbel'))
+                 for i, n in enumerate((1024, 2048, 4096, 3000, 4097)))
+SIZE_ROBUST = (('clayton', 0.6, 4097, 8201), ('gumbel', 0.6, 4097, 8202))
+SIZE_ROBUST_N = (4095, 4096, 4097)
+
+
+def size_tie(ctx, t):
+    """(a) the whole-model tie on Clayton / Gumbel samples of n = 1024, 2048, 4096, 3000, 4097; a disagreement is a
+    concrete failing input."""
+    for spec in SIZE_TIE:
+        X = own_sample(*spec)
+        k = len(t.log)
+        ctx.count('size-tie')
+        t.one(f'size-{spec[0]}', X)
+        if len(t.log) > k:
+            ctx.fail_input('copulas.bivariate.select_copula',
+                           {'sampler': 'harness own_sample', 'family': spec[0], 'tau': spec[1], 'n': spec[2], 'seed': spec[3]},
+                           {'real code vs Lean model': [list(e) for e in t.log[k:k + 3]]},
+                           'select_copula and _compute_empirical agree with the model (empirical tail curves over all rows, '
+                           'ranks, arg-max) at every sample size', 'select_copula:disagrees-with-model:sample-size')
+
+
+def size_case(ctx, spec, sizes):
+    """independent of Lean: `_compute_empirical(X[:n])` is the definition over all n rows and the generating family of
+    strongly dependent data is returned, for each n."""
+    from copulas.bivariate import _compute_empirical, select_copula
+    fam, tau, nmax, seed = spec
+    X = own_sample(fam, tau, nmax, seed)
+    checks = 0
+    for n in sizes:
+        Y = X[:n].copy()
+        inp = {'sampler': 'harness own_sample', 'family': fam, 'tau': tau, 'n_sampled': nmax, 'seed': seed, 'n': n}
+        with np.errstate(all='ignore'):
+            try:
+                d = compare_empirical(_compute_empirical(Y), empirical_definition(Y, raw_grid()), 1e-12)
+            except Exception as e:  # noqa
+                d = f'raises {type(e).__name__}: {e}'
+            got = result_of(lambda: select_copula(Y))
+        checks += 2
+        if d:
+            ctx.fail_input('copulas.bivariate._compute_empirical', inp, d,
+                           'the empirical tail functions are the fractions of ALL n rows in [0,z]^2 and [z,1]^2 divided by '
+                           'z^2 and (1-z)^2, for every n', '_compute_empirical:not-the-empirical-tail:sample-size')
+        if tau >= 0.6 and not (got[0] == 'ok' and got[1] == fam):
+            ctx.fail_input('copulas.bivariate.select_copula', inp, {'selected': got},
+                           f'strongly dependent {fam} data are recognised as {fam} at n = 4095, 4096 and 4097 alike',
+                           'select_copula:family-not-recovered:sample-size')
+    return checks
+
+
+def size_oracle(ctx):
+    n = sum(size_case(ctx, spec, SIZE_ROBUST_N) for spec in SIZE_ROBUST)
+    return n + sum(size_case(ctx, spec, (spec[2],)) for spec in SIZE_TIE)
+
+
 RECOVERY_TAUS = (0.3, 0.5, 0.7)
 RECOVERY_N = 3000
 RECOVERY_SEEDS = 10
@@ -1600,6 +1661,7 @@ def search(ctx, deep):
     checks += negative_tau_oracle(ctx)
     checks += raw_tau_oracle(ctx)
     checks += perfect_oracle(ctx)
+    checks += size_oracle(ctx)
     checks += buffer_reuse_oracle(ctx)
     checks += tiny_tau_oracle(ctx)
     checks += scalar_form_oracle(ctx)
@@ -1644,6 +1706,10 @@ def replay(ctx, payload):
             return inp.get('form') in hit
         routes_case(ctx, spec, lambda sp, name, *a: hit.append(name))
         return inp.get('route') in hit
+    if cls.endswith(':sample-size') and 'seed' in inp:
+        n0 = inp.get('n_sampled', inp['n'])
+        size_case(ctx, (inp['family'], inp['tau'], n0, inp['seed']), (inp['n'],))
+        return any(f['class'].endswith(':sample-size') for f in ctx.failing[before:])
     if cls == 'select_copula:result-depends-on-array-identity' and 'batch' in inp:
         buffer_reuse_oracle(ctx, tuple(tuple(b) for b in inp['batch']))
         return any(f['class'] == cls for f in ctx.failing[before:])
